@@ -7,6 +7,7 @@ import Driver.Queue
 import Driver.Net
 import Driver.Bcast
 import Driver.Inj
+import Driver.TSet
 /-!
 `nexo_driver <engine>` — folds the executable Lean model of an engine over request lines read from
 stdin and prints one response line per request.  A line starting with `case` resets the state.
@@ -33,6 +34,7 @@ def main (args : List String) : IO UInt32 := do
   | ["queue"] => loop stdin stdout Driver.Queue.step ({} : Driver.Queue.DSt); return 0
   | ["net"] => loop stdin stdout Driver.Net.step ({} : Driver.Net.DSt); return 0
   | ["bcast"] => loop stdin stdout Driver.Bcast.step ({} : Driver.Bcast.DSt); return 0
+  | ["tset"] => loop stdin stdout Driver.TSet.step ({} : Driver.TSet.DSt); return 0
   | ["inj"] => loop stdin stdout Driver.Inj.step ({} : Driver.Inj.DSt); return 0
   | ["pq"] => loop stdin stdout Driver.PQ.step Driver.PQ.St.none; return 0
   | _ => IO.eprintln "usage: nexo_driver <engine>"; return 2
